@@ -50,11 +50,12 @@ func (t *brokerPublishTransactionBase) regack(snRegack *snPkts1.Regack, newState
 		t.log.Debug("Unexpected packet in %d: %v", t.State, snRegack)
 		return nil
 	}
+	snRegister := t.Data.(*snPkts1.Register)
+	t.handler.pendingTopics.Delete(snRegister.TopicName)
 	if snRegack.ReturnCode != snPkts1.RC_ACCEPTED {
 		t.Fail(fmt.Errorf("REGACK return code: %d", snRegack.ReturnCode))
 		return nil
 	}
-	snRegister := t.Data.(*snPkts1.Register)
 	t.handler.registeredTopics.Store(snRegister.TopicID, snRegister.TopicName)
 	return t.ProceedSN(newState, t.snPublish)
 }
